@@ -20,6 +20,8 @@ UNDECIDED = ["absence of false positives on healthy archives (value-level)",
 ASSUMPTIONS = ["damage turns into an Err of a read/list/decompress/deserialize/hash-check, or into a missing file"]
 
 ERR_ALLOWED = {
+    ("band::band_version_supported", "semver::Version::parse", "unwrap_or"):
+        "conservative: a version string that does not parse counts as unsupported, so Band::open fails with UnsupportedBandVersion",
     ("archive::Archive::list_band_ids", "core::str::<impl str>::parse", "ok"): "name filter: a directory that is not named like a band is not a band",
     ("index::IndexRead::hunks_available", "core::str::<impl str>::parse", "ok"): "name filter: not a hunk file name",
 }
